@@ -257,6 +257,8 @@ class Pointwise(Interp):
     def subscript_hook(self, base, idx, node):
         if isinstance(base, EmptyArr):
             return base
+        if isinstance(base, PV) and base.uniq and isinstance(idx, int) and not isinstance(idx, bool):
+            return PV(base.poly, base.cont, "nps", base.origin)  # some element: the generic one
         if isinstance(base, PV) and base.uniq:
             # boolean selection from the array of distinct values: the generic element stays or goes
             if isinstance(idx, Mask) and idx.value is not None:
@@ -360,8 +362,25 @@ class Pointwise(Interp):
                 a = args[0]
                 return PV(a.poly, a.cont, "arr", a.origin, uniq=True)
             return Unknown("np.unique with options")
-        if n in _UFUNC_OPS and len(args) == 2 and not kwargs:
-            return self.binop(_UFUNC_OPS[n](), args[0], args[1], node)
+        if n in _UFUNC_OPS and len(args) == 2 and not (set(kwargs) - {"out"}):
+            res = self.binop(_UFUNC_OPS[n](), args[0], args[1], node)
+            out = kwargs.get("out")
+            if out is not None:
+                # in place: every name bound to the output array sees the new values; the values are
+                # cast to the output's container
+                if not isinstance(out, PV) or isinstance(res, Unknown):
+                    raise Undecided(f"{n} with out= on an unmodelled value")
+                if isinstance(res, PV):
+                    if res.cont != out.cont:
+                        self.event(node, "astype", res.poly, out.cont, "ufunc out= cast")
+                    res = PV(res.poly, out.cont, out.kind, res.origin or out.origin, uniq=out.uniq)
+                for k, v in list(self.env.items()):
+                    if v is out:
+                        self.env[k] = res
+            return res
+        if n in ("numpy.greater", "numpy.less", "numpy.greater_equal", "numpy.less_equal", "numpy.equal", "numpy.not_equal") and len(args) == 2 and not kwargs:
+            op = {"greater": ast.Gt, "less": ast.Lt, "greater_equal": ast.GtE, "less_equal": ast.LtE, "equal": ast.Eq, "not_equal": ast.NotEq}[n.split(".")[1]]
+            return self.compare(op(), args[0], args[1], node)
         if n == "numpy.float64" and args and isinstance(self.lift(args[0]), PV) and not kwargs:
             a = self.lift(args[0])
             self.event(node, "astype", a.poly, "f64", "cast")
